@@ -28,6 +28,9 @@ __sort_lookup = {}
 # names of recursive functions and of constructors/selectors of parametric
 # datatypes: declared symbols about which nothing else is recorded
 __other_symbols = set()
+# every token of the input: a fresh name must not be one of them, whatever way
+# of declaring or binding a symbol put it there (:named, match, lambda, ...)
+__all_tokens = set()
 # Stores indices that should not be replaced by constants
 __indices = set()
 # Caches calls to get_sort
@@ -87,6 +90,7 @@ def collect_information(exprs):  # noqa: C901
     global __definition_node_ids
     global __sort_lookup
     global __other_symbols
+    global __all_tokens
     global __indices
     global __datatypes_constants
     global __datatypes_constructors
@@ -230,6 +234,8 @@ def collect_information(exprs):  # noqa: C901
 
     # Collect additional term level information.
     for node in nodes.dfs(exprs):
+        if node.is_leaf():
+            __all_tokens.add(node.data)
         # Mark indices of indexed terms.
         if not node.is_leaf() and len(node) > 2 and node[0] == '_':
             for num in node[2:]:
@@ -267,6 +273,7 @@ def reset_information():
     global __definition_node_ids
     global __sort_lookup
     global __other_symbols
+    global __all_tokens
     global __indices
     global __get_sort_cache
     global __datatypes_constants
@@ -277,6 +284,7 @@ def reset_information():
     __definition_node_ids = set()
     __sort_lookup = {}
     __other_symbols = set()
+    __all_tokens = set()
     __indices = set()
     __get_sort_cache = {}
     __datatypes_constants = {}
@@ -345,7 +353,7 @@ def is_var(node):
 def is_declared_symbol(node):
     """Return true if ``node`` is a symbol that is declared, defined or bound
     in the current input (a constant, a function, a bound variable, a datatype
-    constructor or selector).
+    constructor or selector) or occurs in it as any other token.
 
     Requires that global information has been populated via
     ``collect_information``.
@@ -358,6 +366,7 @@ def is_declared_symbol(node):
     else:
         other = Node(f'|{node.data}|')
     return any(n.data in __sort_lookup or n.data in __other_symbols
+               or n.data in __all_tokens
                or n in __datatypes_constructors or n in __datatypes_selectors
                for n in (node, other))
 
